@@ -382,7 +382,6 @@ def gen(rng, tier):
         yield a
         if b:
             yield b
-    yield from ext_heldout      # two slots on the chain that is not mirror symmetric, both back-ends
     for _ in range(3 * n):
         yield {"kind": "layout", "sub": rng.randrange(1 << 30)}
     for _ in range(24 * n):
@@ -392,6 +391,7 @@ def gen(rng, tier):
         yield {"kind": "reprep-vec", "sub": rng.randrange(1 << 30)}
     for _ in range(20 * n):
         yield {"kind": "reprep-mps", "sub": rng.randrange(1 << 30)}
+    yield from ext_heldout      # two slots on the chain that is not mirror symmetric, both back-ends (last: never starves the cheap ties)
 
 
 # ----------------------------------------------------------------------------------------------- frame
